@@ -2,6 +2,7 @@ import RNacos.Driver.Codec
 import RNacos.Driver.Distro
 import RNacos.Driver.Sequence
 import RNacos.Driver.AuthDrv
+import RNacos.Driver.ConfigDrv
 open RNacos.Driver
 
 /-- Generic loop: `# …` lines are echoed and reset the state. -/
@@ -34,4 +35,6 @@ def main (args : List String) : IO UInt32 := do
   | ["console", "--spec"] => loop stdin stdout ({} : AuthDrv.SpecSt) (AuthDrv.specStep AuthDrv.specConsole) {}; return 0
   | ["perm"] => loop stdin stdout () AuthDrv.step (); return 0
   | ["perm", "--spec"] => loop stdin stdout () (fun _ _ => ((), "-")) (); return 0
+  | ["config"] => loop stdin stdout ({} : ConfigDrv.St) ConfigDrv.step {}; return 0
+  | ["config", "--spec"] => loop stdin stdout ({} : ConfigDrv.SpecSt) ConfigDrv.specStep {}; return 0
   | _ => IO.eprintln "usage: driver <model> [--spec]"; return 2
